@@ -33,6 +33,23 @@ Theorem C06_string_key_total : forall site f args, In (site, f, args) txkey_site
 Proof. exact (sites_render sites_ok). Qed.
 Print Assumptions C06_string_key_total.
 
+(* a response that fails in the socket (EvRecvWF: the datagram is handled while every write fails): the state is that of
+   the successful case - so the request is not executed again either - and nothing is emitted; the response is retained,
+   and a retransmission is answered with it (shown for the Heartbeat, whose response is known in closed form) *)
+From GoUpf Require WriteFail.
+Theorem C06_lost_response_same_state : forall w peer seq m e w' o,
+  step w (EvRecv peer seq m e) = Ok (w', o) ->
+  step w (EvRecvWF peer seq m e) = Ok (w', drop_sends o) /\ (forall d p r, ~ In (OSend d p r) (drop_sends o)).
+Proof. intros w peer seq m e w' o H. split; [apply WriteFail.recv_write_failure_same_state; exact H | intros d p r; apply WriteFail.drop_sends_no_send]. Qed.
+Print Assumptions C06_lost_response_same_state.
+
+Theorem C06_lost_heartbeat_response_retained : forall w peer seq e e',
+  klookup (peer, seq) (w_rx w) = None ->
+  exists w', step w (EvRecvWF peer seq MHeartbeat e) = Ok (w', []) /\
+             step w' (EvRecv peer seq MHeartbeat e') = Ok (w', [OSend peer (PHeartbeatRsp seq) true]).
+Proof. exact WriteFail.lost_heartbeat_response_retained. Qed.
+Print Assumptions C06_lost_heartbeat_response_retained.
+
 (* the retention timer releases the entry *)
 Theorem C06_released : forall w peer seq,
   exists w', step w (EvTimeoutRx peer seq) = Ok (w', []) /\ klookup (peer, seq) (w_rx w') = None.
